@@ -190,6 +190,14 @@ func c10Run(c *core.Ctx) {
 			}
 		})
 	}
+	// E-pairs: every production after every production, in both grammars (values left on the yacc stack)
+	for _, fam := range []string{"php7", "php5"} {
+		forPairs(c, corpus.MustFam(fam), pairLevel(c), 1, func(p, s *corpus.Item, src string) {
+			cs := mkCase(src, nil, "pair of corpus programs")
+			cs.Ver = "5.6+7.4"
+			c10One(c, cs)
+		})
+	}
 	for _, src := range corpus.Specials() {
 		if !c.Next() {
 			continue
